@@ -21,9 +21,10 @@ SUPPORTED = ['NOT', 'AND', 'OR', 'XOR', 'NAND', 'NOR', 'NXOR', 'GT', 'LT', 'GEQ'
 def gen_case(rng):
     ni = rng.choice([2, 3, 3, 4, 4, 5])
     no = rng.choice([1, 1, 2, 3])
-    j, _ = gen.gen_circuit(rng, max_inputs=ni, min_inputs=ni, max_gates=rng.randint(3, 12), n_outputs=no, max_arity=2,
-                           types=SUPPORTED)
-    nary = rng.random() < 0.12
+    # about a quarter of the circuits have AND/OR/XOR/NAND/NOR/NXOR gates with three or four operands
+    nary = rng.random() < 0.25
+    j, _ = gen.gen_circuit(rng, max_inputs=ni, min_inputs=ni, max_gates=rng.randint(3, 12), n_outputs=no,
+                           max_arity=4 if nary else 2, types=SUPPORTED)
     for g in j['gates']:
         if g[1] not in ('INPUT', 'NOT') and len(g[2]) > 2 and not (nary and g[1] in ('AND', 'OR', 'XOR', 'NAND', 'NOR', 'NXOR')):
             g[2] = g[2][:2]
@@ -67,6 +68,35 @@ def gen_correlated(rng, k):
     if k >= 6 and rng.random() < 0.3:
         params = {'max_subcircuit_size': 4, 'cut_size': 3, 'cut_limit': 25, 'solver_time_limit_sec': 0}
     return realize(j), ('AIG' if k < 6 else rng.choice(['AIG', 'AIG', 'XAIG'])), params, 'all', 0
+
+
+def gen_nary_cone(rng, k):
+    """small cones around one gate with three or four operands (optionally behind negations): the
+    function of such a cone needs more two-input gates than the cone has gates, so the replacement search
+    must not be given a larger budget than the number of gates of the cone"""
+    n = rng.choice([3, 4, 4])
+    ins = ['a', 'b', 'c', 'd'][:n]
+    gates = [[i, 'INPUT', []] for i in ins]
+    ops = []
+    for i in ins:
+        if rng.random() < 0.3:
+            gates.append(['n' + i, 'NOT', [i]])
+            ops.append('n' + i)
+        else:
+            ops.append(i)
+    rng.shuffle(ops)
+    gates.append(['t', rng.choice(['AND', 'OR', 'XOR', 'NAND', 'NOR', 'NXOR']), ops])
+    outs = ['t']
+    if rng.random() < 0.7:
+        gates.append(['u', rng.choice(BIN), ['t', rng.choice(ins)] if rng.random() < 0.5 else [rng.choice(ins), 't']])
+        outs = ['u'] + (['t'] if rng.random() < 0.2 else [])
+    if rng.random() < 0.3:
+        gates.append(['m', rng.choice(['AND', 'OR', 'XOR']), list(ins[:3])])
+        gates.append(['v', rng.choice(BIN), [outs[0], 'm']])
+        outs = ['v']
+    j = {'gates': gates, 'inputs': ins, 'outputs': outs, 'blocks': []}
+    params = {'max_subcircuit_size': 9, 'cut_size': rng.choice([5, 4]), 'cut_limit': 25, 'solver_time_limit_sec': 15}
+    return realize(j), rng.choice(['AIG', 'XAIG', 'FULL']), params, 'all', 0
 
 
 def run_minimize(cj, basis, params, cutmode, cutseed, validate):
@@ -187,6 +217,11 @@ def search(ctx):
         cj, basis, params, cutmode, cutseed = gen_correlated(rng, k)
         ctx.case(json.dumps(['corr', cj['gates'], cj['outputs'], basis]))
         ctx.count('correlated_leaves')
+        check_case(ctx, cj, basis, params, cutmode, cutseed)
+    for k in range(ctx.scale(40, 400)):
+        cj, basis, params, cutmode, cutseed = gen_nary_cone(rng, k)
+        ctx.case(json.dumps(['nary', cj['gates'], cj['outputs'], basis]))
+        ctx.count('nary_cone')
         check_case(ctx, cj, basis, params, cutmode, cutseed)
     for k in range(ctx.scale(120, 2500)):
         cj, basis, params, cutmode, cutseed = gen_case(rng)
